@@ -173,13 +173,14 @@ def laws():
         return Case(alt2 if all(nf_is_zero(r) is True for r in alt2) else alt1)
 
     @law("solve_for_vector/unknown-is-not-a-term(eq-with-cancelling-unknown);non-atomic-unknown-is-refused",
-         [("eq-cancels",), ("2*u",), ("-u",), ("u/k",), ("-cross(b,c)",), ("u+b",)], ["solvers.solve_for_vector"])
+         [("eq-cancels",), ("2*u",), ("-u",), ("u/k",), ("3*cross(b,c)",), ("u+b",)], ["solvers.solve_for_vector"])
     def _(s, g):
         sy, env, k = setup(g)
         u, b, c = sy[0], sy[1], sy[2]
         if s[0] == "eq-cancels":
             return Case(raises=(ValueError, TypeError), thunk=lambda: S.solve_for_vector(sp.Eq(u, u + b, evaluate=False), u))
-        unknown = {"2*u": 2 * u, "-u": -u, "u/k": u / k[0], "-cross(b,c)": -V.VectorCross(b, c), "u+b": u + b}[s[0]]
+        unknown = {"2*u": 2 * u, "-u": -u, "u/k": u / k[0], # (not -cross(b, c): depending on the memory order of b and c that IS the canonical atomic cross(c, b))
+                   "3*cross(b,c)": 3 * V.VectorCross(b, c), "u+b": u + b}[s[0]]
         expr = k[1] * V.VectorCross(b, c) + k[2] * u + k[3] * sy[3]
         return Case(raises=(ValueError, TypeError), thunk=lambda: S.solve_for_vector(expr, unknown))
 
